@@ -286,6 +286,22 @@ func stdlibEffects(f *ssa.Function) stdEffect {
 		return allocOnly
 	case "sort.Strings":
 		return func(vc *VC, x *ssa.Call, ms *ModSet) { ms.heaps[vc.u.heapKey(tString)] = true }
+	case "sort.Sort", "sort.Stable":
+		return func(vc *VC, x *ssa.Call, ms *ModSet) {
+			if mi, ok := x.Call.Args[0].(*ssa.MakeInterface); ok {
+				if stt, ok := types.Unalias(mi.X.Type()).Underlying().(*types.Struct); ok {
+					for i := 0; i < stt.NumFields(); i++ {
+						if et := sliceElem(stt.Field(i).Type()); et != nil && stt.Field(i).Name() == "col" {
+							k := vc.u.heapKey(et)
+							ms.heaps[k], ms.oldH[k] = true, true
+							ms.alloc = true
+							return
+						}
+					}
+				}
+			}
+			ms.all = true
+		}
 	case "sort.Slice", "sort.SliceStable":
 		return func(vc *VC, x *ssa.Call, ms *ModSet) {
 			// the slice is passed as interface: find the MakeInterface operand
@@ -429,6 +445,8 @@ func stdlibHandler(f *ssa.Function) stdHandler {
 		return jsonUnmarshal
 	case "sort.Slice", "sort.SliceStable":
 		return sortSlice
+	case "sort.Sort", "sort.Stable":
+		return sortSort
 	case "sort.Strings":
 		return func(vc *VC, fr *Frame, st *State, x *ssa.Call, args []*Val) *Val {
 			// in place; multiset preserved; sorted
@@ -883,4 +901,49 @@ func (vc *VC) typeNameAxioms() {
 		name = byteWordRe.ReplaceAllString(name, "uint8")
 		vc.assume(fmt.Sprintf("(= (type_name %d) %s)", tg, smtStr(name)))
 	}
+}
+
+// sortSort: assumed contract of sort.Sort(data) for the package's own
+// sort.Interface implementation (sortedResources): the elements of data.col are
+// permuted in place (ghost bijection), nothing else changes. That the result is
+// ordered with respect to Less is the documented contract of sort.Sort and is
+// not restated as a formula here (Less itself is proved against its contract).
+func sortSort(vc *VC, fr *Frame, st *State, x *ssa.Call, args []*Val) *Val {
+	mi, ok := x.Call.Args[0].(*ssa.MakeInterface)
+	if !ok {
+		vc.unsupported(st, "sort.Sort-operand", vc.pos(x.Pos()))
+		return &Val{T: x.Type()}
+	}
+	sv := vc.val(fr, st, mi.X)
+	stt, ok := types.Unalias(sv.T).Underlying().(*types.Struct)
+	if !ok || sv.S == "" {
+		vc.unsupported(st, "sort.Sort-operand", vc.pos(x.Pos()))
+		return &Val{T: x.Type()}
+	}
+	si := vc.u.structOf(sv.T)
+	for i := 0; i < stt.NumFields(); i++ {
+		et := sliceElem(stt.Field(i).Type())
+		if stt.Field(i).Name() != "col" || et == nil {
+			continue
+		}
+		sl := "(" + si.fields[i] + " " + sv.S + ")"
+		key, h := vc.heap(st, et)
+		es := vc.u.sortOf(vc.u.heapKeys[key])
+		nh := vc.fresh("H_"+key, "(Array Int "+es+")")
+		lo, hi := "(sptr "+sl+")", "(+ (sptr "+sl+") (slen "+sl+"))"
+		in := func(a string) string { return "(and (<= " + lo + " " + a + ") (< " + a + " " + hi + "))" }
+		vc.assume(fmt.Sprintf("(forall ((a Int)) (! (=> (not %s) (= (select %s a) (select %s a))) :pattern ((select %s a))))", in("a"), nh, h, nh))
+		vc.nfresh++
+		pf := fmt.Sprintf("perm!%d", vc.nfresh)
+		vc.facts = append(vc.facts, "(declare-fun "+pf+" (Int) Int)")
+		vc.assume(fmt.Sprintf("(forall ((a Int)) (! (=> %s (and %s (= (select %s a) (select %s (%s a))))) :pattern ((select %s a)) :pattern ((%s a))))", in("a"), in("("+pf+" a)"), nh, h, pf, nh, pf))
+		vc.assume(fmt.Sprintf("(forall ((a Int) (b Int)) (! (=> (and %s %s (not (= a b))) (not (= (%s a) (%s b)))) :pattern ((%s a) (%s b))))", in("a"), in("b"), pf, pf, pf, pf))
+		vc.assume(vc.refsBelowAxiom(nh, vc.u.heapKeys[key], st.alloc))
+		vc.assume(vc.elemWfAxiom(nh, vc.u.heapKeys[key]))
+		st.heaps[key] = nh
+		vc.assumed["sort.Sort permutes the elements of the collection in place (and orders them by Less)"] = true
+		return &Val{T: x.Type()}
+	}
+	vc.unsupported(st, "sort.Sort-operand", vc.pos(x.Pos()))
+	return &Val{T: x.Type()}
 }
